@@ -89,6 +89,7 @@ def run_reflection(case):
   # the function must not change its argument
   shared = qs(r)
   snapshot = list(shared)
+  held = []
   for order in list(range(0, p + 1)) + [p + 2, None, p + 1]:
     try:
       if order is None:
@@ -130,6 +131,17 @@ def run_reflection(case):
       e *= 1 - k * k
     if fr(filt.error) != e:
       return bad("levinson:error-product", "error != r0 * prod(1 - k_m^2)", e, filt.error, nt)
+    held.append((order, filt, e, list(ra)))
+  # every result is its own object: later calls (other orders, other lags) leave the earlier results alone
+  other = levinson_durbin(qs([F(7)] + [F(0)] * p), p)            # white lags: every reflection coefficient is zero
+  for i, (order, filt, e, ra) in enumerate(held):
+    if filt is other or any(filt is g for _, g, _, _ in held[i + 1:]):
+      return bad("levinson:shared-result", "two calls returned the same filter object", None, {"order": order}, nt)
+    a = numer(filt) if len(filt.numpoly) else [F(0)]
+    a = a + [F(0)] * (len(ra) - len(a))
+    if fr(filt.error) != e or a != ra:
+      return bad("levinson:result-changed", "a result held by the caller was changed by a later call",
+                 {"order": order, "error": e}, {"error": filt.error, "a": a}, nt)
   return R(None, nt, p)
 
 
